@@ -439,7 +439,7 @@ Definition conv_struct (id : Z) (ps : list prim) (x : pyval) : conv :=
   match x with
   | PyCStruct id' vals => if id =? id' then COk (CStructV (struct_vals ps vals)) else CErr TypeError
   | PyList l => match conv_fields ps l with
-                | inr cs => COk (CStructV cs)    (* unmentioned fields keep whatever the slot contained: not recorded *)
+                | inr cs => COk (CStructV (pad_fields ps cs))   (* both callers clear the destination first: memset *)
                 | inl c => c
                 end
   | _ => CErr TypeError
